@@ -18,13 +18,13 @@
 EXTENDS Tour, Json
 
 CONSTANTS MaxActs, MaxMnt, Starts, Durs, Emit,
-          CfgShMin, CfgShDh, CfgForbid, CfgAsym   \* one configuration per TLC run (runs go in parallel)
+          CfgShMin, CfgShDh, CfgForbid, CfgAsym, CfgDh   \* one configuration per TLC run (runs go in parallel)
 
 Unit == 600
 Locs == {"LA", "LB"}
 SvcOpts == [o : Locs, d : Locs, s : Starts, u : Durs]
 MntOpts == [o : Locs, s : Starts, u : Durs]
-Configs == {[shMin |-> CfgShMin, shDh |-> CfgShDh, forbid |-> CfgForbid, asym |-> CfgAsym]}
+Configs == {[shMin |-> CfgShMin, shDh |-> CfgShDh, forbid |-> CfgForbid, asym |-> CfgAsym, dh |-> CfgDh]}
 
 VARIABLE net
 
@@ -54,7 +54,7 @@ Inst(n) ==
   [ name |-> "tiny",
     locs |-> <<"LA", "LB">>,
     types |-> << [id |-> "T0", cap |-> 100, seats |-> 50, limit |-> -1] >>,
-    dhDur |-> << <<0, Unit>>, <<(IF n.cfg.asym THEN 2 * Unit ELSE Unit), 0>> >>,
+    dhDur |-> << <<0, n.cfg.dh>>, <<(IF n.cfg.asym THEN 2 * n.cfg.dh ELSE n.cfg.dh), 0>> >>,
     dhDist |-> << <<0, 5000>>, <<(IF n.cfg.asym THEN 9000 ELSE 5000), 0>> >>,
     shuntMin |-> n.cfg.shMin, shuntDh |-> n.cfg.shDh, forbid |-> n.cfg.forbid,
     trips |-> [i \in DOMAIN SvcSeq(n) |->
